@@ -757,4 +757,6 @@ class Engine:
         raise Unsupported(f"== at type {t}")
 
     def _scalar(self, t):
+        if t.kind == "opt" and t.args[0].kind == "opaque":
+            return True  # Optional[<library object>]: identity of the object, or None
         return t.kind in ("int", "real", "bool", "str", "none", "opaque", "enum")
